@@ -279,6 +279,14 @@ def wna_plumb : R String := do
   let same := d' == d && T' == T && q' == q
   pure s!"ok {if defaultSetProperty "reset" then 1 else 0} {if defaultSetProperty "anything" then 1 else 0} {if ok then 1 else 0} {if same then "unchanged" else "changed"}"
 
+def lti_move : R String := do
+  let n ← nat; let mode ← nat
+  done
+  let a : LtiObj := { n := n, skipping := true, hasExo := true }
+  let other : LtiObj := { n := n + 1, skipping := false, hasExo := false }
+  let b := if mode == 0 then a.moveFrom else LtiObj.moveAssign other a
+  pure s!"ok {b.n} {if b.hasExo then 1 else 0} {if b.skipping then 1 else 0}"
+
 def wna_move : R String := do
   let d ← dim; let T ← rat; let q ← rat
   let d2 ← dim; let T2 ← rat; let q2 ← rat
@@ -331,6 +339,7 @@ def handle (op : String) (args : List String) : Option String :=
   | "sensor_descr" => some ((run sensor_descr args).getD "bad-args")
   | "wna_plumb" => some ((run wna_plumb args).getD "bad-args")
   | "wna_move" => some ((run wna_move args).getD "bad-args")
+  | "lti_move" => some ((run lti_move args).getD "bad-args")
   | "grid" => some ((run grid args).getD "bad-args")
   | _ => none
 
